@@ -1,9 +1,136 @@
 import KG.Base.Json
-/-! Driver entry points for property C09 (filled in by the C09 model). -/
+import KG.Model.RemoteLimiter
+import KG.Spec.RemoteLimiter
+/-! Driver entry points for property C09: `C09.case {cfg, ops, obs?}` runs the model over the operation list and,
+    when the implementation's observations are given, evaluates the judge on them. -/
 namespace KG.Driver.C09
-open Lean
+open Lean KG KG.Model.RemoteLimiter KG.Spec.RemoteLimiter
 
-/-- `handle method args`: `none` when the method is unknown. -/
-def handle (_m : String) (_a : Json) : Option (Except String Json) := none
+def decStrategy (s : String) : Strategy :=
+  if s = "" then .empty else if s = "local" then .loc else if s = "globalAllocate" then .alloc
+  else if s = "globalCount" then .count else .other
+
+def optInt (j : Json) (k : String) : Except String (Option Int) :=
+  match J.optObj j k with
+  | none => pure none
+  | some v => do pure (some (← v.getInt?))
+
+def optTB (j : Json) (k : String) : Except String (Option TB) :=
+  match J.optObj j k with
+  | none => pure none
+  | some v => do
+    let a ← v.getArr?
+    match a.toList with
+    | [q, b] => pure (some { qps := ← q.getInt?, burst := ← b.getInt? })
+    | _ => throw s!"{k}: want [qps, burst]"
+
+def decSchema (j : Json) : Except String Schema := do
+  pure { strategy := decStrategy (← J.getStr j "strategy"), exempt := ← J.getBool j "exempt",
+         mi := ← optInt j "mi", tb := ← optTB j "tb", gmi := ← optInt j "gmi", gtb := ← optTB j "gtb" }
+
+def decItem (j : Json) : Except String Item := do
+  pure { strategy := decStrategy (← J.getStr j "strategy"), mi := ← optInt j "mi", tb := ← optTB j "tb" }
+
+def decErr (s : String) : ErrKind := if s = "" then .none else if s = "RequestIDTooOld" then .tooOld else .other
+
+def decOp (j : Json) : Except String Op := do
+  match ← J.getStr j "op" with
+  | "schema" => pure (.schema (← decSchema (← J.getObj j "schema")))
+  | "shards" => pure (.shards (← J.getNat j "n"))
+  | "hb" => pure (.hb (← J.getBool j "ok") (← J.getInt j "now") (← J.getBool j "other"))
+  | "reconcile" => pure .reconcileCount
+  | "answer" => pure (.answer (← J.getBool j "named") (← decItem (← J.getObj j "item")))
+  | "meter" => pure (.meter { maxInflight := ← J.getInt j "max", rateNum := ← J.getInt j "rateNum", rateDen := ← J.getInt j "rateDen" })
+  | "setlimit" =>
+    pure (.setLimit { hasReq := ← J.getBool j "hasReq", tokens := ← J.getInt j "tokens", accept := ← J.getBool j "accept",
+                      limit := ← J.getInt j "limit", err := decErr (← J.getStr j "err"), rt := ← J.getInt j "rt" })
+  | o => throw s!"unknown op {o}"
+
+def decCfg (j : Json) : Except String Cfg := do
+  let rl := match ← J.getStr j "rateLimiter" with
+    | "remote" => RL.remote
+    | "local" => RL.loc
+    | "" => RL.loc
+    | _ => RL.other
+  pure { rateLimiter := rl, hasCS := ← J.getBool j "hasCS" }
+
+def encLim : Lim → Json
+  | .exempt m => J.obj [("kind", Json.str "Exempt"), ("size", J.int m)]
+  | .mi s => J.obj [("kind", Json.str "MaxRequestsInflight"), ("size", J.int s)]
+  | .tb q b => J.obj [("kind", Json.str "TokenBucket"), ("qps", J.int q), ("burst", J.int b)]
+
+def decLim (j : Json) : Except String Lim := do
+  match ← J.getStr j "kind" with
+  | "Exempt" => pure (.exempt (← J.getInt j "size"))
+  | "MaxRequestsInflight" => pure (.mi (← J.getInt j "size"))
+  | "TokenBucket" => pure (.tb (← J.getInt j "qps") (← J.getInt j "burst"))
+  | k => throw s!"unknown limiter kind {k}"
+
+def encOpt {α} (f : α → Json) : Option α → Json
+  | none => Json.null
+  | some a => f a
+
+def encStrategy : Strategy → Json
+  | .empty => Json.str "" | .loc => Json.str "local" | .alloc => Json.str "globalAllocate"
+  | .count => Json.str "globalCount" | .other => Json.str "other"
+
+def encTB (t : TB) : Json := Json.arr #[J.int t.qps, J.int t.burst]
+
+def encItem (i : Item) : Json :=
+  J.obj [("strategy", encStrategy i.strategy), ("mi", encOpt J.int i.mi), ("tb", encOpt encTB i.tb)]
+
+def encChoice : Choice → Json
+  | .dflt => Json.str "default" | .loc => Json.str "local" | .remote => Json.str "remote"
+
+def decChoice (s : String) : Except String Choice :=
+  match s with
+  | "default" => pure .dflt | "local" => pure .loc | "remote" => pure .remote
+  | _ => throw s!"unknown choice {s}"
+
+def encObs (o : Obs) : Json :=
+  J.obj [("choice", encChoice o.choice), ("lim", encOpt encLim o.lim), ("rlim", encOpt encLim o.rlim),
+         ("wkind", J.nat o.wkind), ("unavail", J.bool o.unavail), ("wmax", J.int o.wmax), ("wreserve", J.int o.wreserve),
+         ("lastAcq", J.int o.lastAcq), ("acquired", J.int o.acquired), ("overLimited", J.int o.overLimited),
+         ("tokens", J.int o.tokens), ("tokenBatch", J.int o.tokenBatch), ("tokenInflight", J.int o.tokenInflight),
+         ("wqps", J.int o.wqps), ("wburst", J.int o.wburst), ("ready", J.bool o.ready), ("ret", J.bool o.ret),
+         ("remoteConfig", encOpt encItem o.remoteConfig)]
+
+def optLim (j : Json) (k : String) : Except String (Option Lim) :=
+  match J.optObj j k with
+  | none => pure none
+  | some v => do pure (some (← decLim v))
+
+def decObs (j : Json) : Except String Obs := do
+  let rc ← match J.optObj j "remoteConfig" with
+    | none => pure none
+    | some v => do pure (some (← decItem v))
+  pure { choice := ← decChoice (← J.getStr j "choice"), lim := ← optLim j "lim", rlim := ← optLim j "rlim",
+         wkind := ← J.getNat j "wkind", unavail := ← J.getBool j "unavail", wmax := ← J.getInt j "wmax",
+         wreserve := ← J.getInt j "wreserve", lastAcq := ← J.getInt j "lastAcq", acquired := ← J.getInt j "acquired",
+         overLimited := ← J.getInt j "overLimited", tokens := ← J.getInt j "tokens", tokenBatch := ← J.getInt j "tokenBatch",
+         tokenInflight := ← J.getInt j "tokenInflight", wqps := ← J.getInt j "wqps", wburst := ← J.getInt j "wburst",
+         ready := ← J.getBool j "ready", ret := ← J.getBool j "ret", remoteConfig := rc }
+
+def encVerdict (v : List (List String)) : Json :=
+  Json.arr (v.map fun l => Json.arr (l.map Json.str).toArray).toArray
+
+/-- `C09.case {cfg, ops, obs?}` → `{model:[obs…], panic: null|msg, verdictModel:[[…]…], verdictImpl?:[[…]…]}` -/
+def doCase (a : Json) : Except String Json := do
+  let cfg ← decCfg (← J.getObj a "cfg")
+  let ops ← (← J.getArr a "ops").toList.mapM decOp
+  let r := run cfg ops
+  let base := [("model", Json.arr (r.1.map encObs).toArray),
+               ("panic", encOpt Json.str r.2),
+               ("verdictModel", encVerdict (judgeAll cfg ops r.1))]
+  match J.optObj a "obs" with
+  | none => pure (J.obj base)
+  | some o => do
+    let obs ← (← o.getArr?).toList.mapM decObs
+    pure (J.obj (base ++ [("verdictImpl", encVerdict (judgeAll cfg ops obs))]))
+
+def handle (m : String) (a : Json) : Option (Except String Json) :=
+  match m with
+  | "case" => some (doCase a)
+  | _ => none
 
 end KG.Driver.C09
